@@ -321,7 +321,12 @@ func (e *executor) concStr(v value) string {
 		if a.dom == nil {
 			panic(engineError{"cannot concretize unconstrained symbolic string " + a.name})
 		}
-		i := e.chooseN(len(a.dom), func(i int) term { return tEq(a.t, strConst(a.dom[i])) })
+		// (the chosen alternative pins the atom, as a comparison with a literal does: later uses are concrete)
+		i := e.chooseN(len(a.dom), func(i int) term {
+			t := tEq(a.t, strConst(a.dom[i]))
+			t.eqAtom, t.eqLit = a, a.dom[i]
+			return t
+		})
 		b.WriteString(a.dom[i])
 	}
 	return b.String()
